@@ -154,4 +154,50 @@ def Inst.step (i : Inst) (op : Op) : R (Inst × Obs × Nat) :=
   | some (k, f) => i.withPort k f
   | none => i.other op
 
+/-! ### which acquisitions of the instance-state lock each host call performs (C17) -/
+
+inductive LockEv | r | w
+  deriving DecidableEq, Repr, Inhabited
+
+/-- lock acquisitions while a received frame is handled (`parse_and_filter`, then the handlers) -/
+def recvLocks (p : Port) (s : InstState) (data : List UInt8) (event : Bool) : List LockEv :=
+  if !isCompatible data then []
+  else match decode data with
+    | .error _ => []
+    | .ok m =>
+      .r ::   -- domain / sdoId check
+      (if m.header.sdoId = s.dflt.sdoId ∧ m.header.domain = s.dflt.domain then
+        match m.body with
+        | .announce _ =>
+          -- `matches!(Slave) && src == with_ref(parent)` (short-circuit), then one `with_mut` for table 33
+          if p.st.isSlave then .r :: (if m.header.src = s.parent.parentPort then [.w] else []) else []
+        | .pdelayReq _ => if event then [.r] else []
+        | _ => []
+      else [])
+
+def Inst.lockTrace (i : Inst) : Op → List LockEv
+  | .gen k data => match portAt i.ports k with | some p => recvLocks p i.st data false | none => []
+  | .evt k data _ => match portAt i.ports k with | some p => recvLocks p i.st data true | none => []
+  | .tmrAnnounce k loose q =>
+    match portAt i.ports k with
+    | some p => if p.st = .master then
+        -- the message, the path trace list, then the parent identity once per TLV taken from the provider
+        .r :: .r :: List.replicate (q.length - (p.announceFwd i.st q loose).2.length) .r else []
+    | none => []
+  | .tmr k .announce => match portAt i.ports k with | some p => if p.st = .master then [.r, .r] else [] | none => []
+  | .tmr k .sync => match portAt i.ports k with | some p => if p.st = .master then [.r] else [] | none => []
+  | .tmr k .delay =>
+    match portAt i.ports k with
+    | some p => if p.cfg.p2p then [.r] else if p.st.isSlave then [.r] else []
+    | none => []
+  | .tmr k .receipt => match portAt i.ports k with | some p => if p.st = .faulty then [] else [.r] | none => []
+  | .tmr _ .filter => []
+  | .txts k (.sync _) _ => match portAt i.ports k with | some p => if p.st = .master then [.r] else [] | none => []
+  | .txts k (.pdelayResp _ _) _ => match portAt i.ports k with | some _ => [.r] | none => []
+  | .txts _ _ _ => []
+  | .bmca _ => [.w]
+  | .addPort _ => [.w]
+  | .setSlaveOnly _ => [.w]
+  | .setQuality _ => [.w]
+
 end Statime
